@@ -236,6 +236,8 @@ def scenario_list(tier):
         sc.append(dict(kind=kind, metric="dense", integ="bcss3", N=1, free=[118880, 296195], h1first=True))
         sc.append(dict(kind=kind, metric="dense", integ="bcss4", N=1, free=[71354, 191668, 268549], h1first=True))
         sc.append(dict(kind=kind, metric="dense", integ="composition", N=1, free=[62500], h1first=True))
+        # isotropic metric handed over as a PositiveScaledIdentityMatrix (scalar != 1)
+        sc.append(dict(kind=kind, metric="scaled", integ="leapfrog", N=1, free=[], h1first=True))
     for fl in zoo.RIEMANNIAN_FLAVOURS:
         sc.append(dict(kind="Riemannian", flavour=fl, integ="implicit_leapfrog", N=1, free=[], h1first=True))
     sc.append(dict(kind="SoftAbs", integ="implicit_leapfrog", N=1, free=[], h1first=True))
